@@ -83,13 +83,21 @@ Theorem C28_sbatch_argv_shape : forall c,
 Proof. exact sbatch_argv_shape. Qed.
 Print Assumptions C28_sbatch_argv_shape.
 
-(* … each of job-name / output / error exactly once, user tokens preserved: complete sweep of the finite
-   family [family] (all sequences of at most 3 items of [pool], each option kind at most once) *)
-Theorem C28_options_once_family : forall is, In is family -> options_check is = true.
-Proof. exact options_once_family. Qed.
-Print Assumptions C28_options_once_family.
+(* … and for EVERY list of clean tokens in the forms the code handles (forms_ok: no "-Xvalue", no bare
+   "--long value", no token with the short name as a proper suffix or "--long=" inside): the vector is the user's
+   tokens, then the worker's default for exactly those options the user did not give, then the script.  So each
+   option the user gave stays exactly as often as given, and a default is added only when the user gave none. *)
+Theorem C28_options_general : forall toks name dir script,
+  forallb clean toks = true -> forms_ok toks = true ->
+  sbatch_argv {| sc_args := join_sp toks; sc_default_name := name; sc_script_dir := dir; sc_batch_script := script |} =
+  (toks ++ (if Nat.eqb (occurrences KName toks) 0 then [String.append "--job-name=" name] else [])
+        ++ (if Nat.eqb (occurrences KOut toks) 0 then [String.append "--output=" (String.append dir "/slurm-%j.out")] else [])
+        ++ (if Nat.eqb (occurrences KErr toks) 0 then [String.append "--error=" (String.append dir "/slurm-%j.err")] else [])
+        ++ [script])%list.
+Proof. exact options_general. Qed.
+Print Assumptions C28_options_general.
 
-(* … but not for every form sbatch accepts: "--job-name name" (and "-Jname") get a second option appended *)
+(* … but not outside forms_ok: "--job-name name" (and "-Jname") get a second option appended *)
 Theorem C28_refuted_option_form : ~ options_statement.
 Proof. exact refuted_option_form. Qed.
 Print Assumptions C28_refuted_option_form.
